@@ -21,17 +21,21 @@ type AsyncSetup struct {
 	Layout     bool   // logger-level layout: events reach the appender as formatted bytes
 	Second     bool   // a second, ungated recording appender behind the gate (direct mode only)
 	Prefill    int    // events submitted before the generated actions start (initial occupancy)
+	FromNone   bool   // direct mode: the logger's range is [NONE,MAX); "dis" events use a level below NONE (NEG=-1), "ev0" events are enabled
+	RefsOrder  int    // direct mode: permutation of the appender references (the restricted one first, ...): their order carries no meaning
 	Restart    bool   // direct mode: the logger value has been through a Start/Stop cycle before (an AsyncLogger value may be started again)
 }
 
 func (s AsyncSetup) String() string {
-	return fmt.Sprintf("policy=%s size=%d viaRefresh=%v layout=%v second=%v prefill=%d restart=%v", s.Policy, s.Size, s.ViaRefresh, s.Layout, s.Second, s.Prefill, s.Restart)
+	return fmt.Sprintf("policy=%s size=%d viaRefresh=%v layout=%v second=%v prefill=%d restart=%v fromNone=%v refsOrder=%d", s.Policy, s.Size, s.ViaRefresh, s.Layout, s.Second, s.Prefill, s.Restart, s.FromNone, s.RefsOrder)
 }
 
 // Action kinds: "ev" enabled event, "dis" event below the logger's level, "raw" raw write,
 // "raw0" raw write with an empty payload (nil or zero-length: an item like any other), "evl" event
 // at a user level registered after the logger was started (inside the logger's range),
 // "rawL" raw write of a payload larger than the buffer-reuse cap (an item like any other),
+// "evP" event at PANIC level, "ev0" event at NONE level (enabled when the logger's range starts at
+// NONE, see AsyncSetup.FromNone) - the level of an event decides whether it is enabled, nothing else,
 // "step" let the worker finish the in-flight item.
 type AsyncAction struct {
 	K string
@@ -47,6 +51,7 @@ type AsyncResult struct {
 	HasRestricted  bool
 	RawIDs         map[int64]bool // which submissions were raw writes
 	EmptyIDs       map[int64]bool // which of them had an empty payload
+	HighIDs        map[int64]bool // events at PANIC level (admitted by the reference restricted to [ERROR,MAX))
 	Counter        int64   // GetDiscardCounter(), -1 if unobservable (Refresh-built logger)
 	Overflows      int     // submissions that met a full buffer
 	BlockWaits     int     // Block submissions that had to wait
@@ -68,6 +73,8 @@ func InitAsyncNames(tag, handle string) {
 
 var allLevels = log.LevelRange{MinLevel: log.NoneLevel, MaxLevel: log.MaxLevel}
 
+var levelNeg = log.RegisterLevel(-1, "NEG")
+
 const waitLimit = 20 * time.Second
 
 func waitSig(ch chan struct{}, what string, res *AsyncResult) bool {
@@ -84,7 +91,7 @@ func waitSig(ch chan struct{}, what string, res *AsyncResult) bool {
 
 // RunAsyncHistory executes the history against a real AsyncLogger and the reference model.
 func RunAsyncHistory(setup AsyncSetup, tagName, handleName string, actions []AsyncAction) *AsyncResult {
-	res := &AsyncResult{Counter: -1, RawIDs: map[int64]bool{}, EmptyIDs: map[int64]bool{}}
+	res := &AsyncResult{Counter: -1, RawIDs: map[int64]bool{}, EmptyIDs: map[int64]bool{}, HighIDs: map[int64]bool{}}
 	ResetRecs()
 	log.Destroy()
 	gate := NewGate()
@@ -93,6 +100,7 @@ func RunAsyncHistory(setup AsyncSetup, tagName, handleName string, actions []Asy
 	var direct *log.AsyncLogger
 	var submitEvent func(id int64, enabled bool)
 	var submitLate func(id int64)
+	submitAt := func(id int64, lv log.Level) { log.Record(context.Background(), lv, asyncTag, 0, log.Int("id", id)) }
 	var submitRaw func(id int64)
 	var submitEmpty func(id int64)
 	bigPad := strings.Repeat("P", 20000)
@@ -140,7 +148,11 @@ func RunAsyncHistory(setup AsyncSetup, tagName, handleName string, actions []Asy
 	} else {
 		g := &RecAppender{AppenderBase: log.AppenderBase{Name: "gate"}}
 		_ = g.Start()
-		refs := []*log.AppenderRef{{Appender: g, Level: allLevels}}
+		gateRange := allLevels
+		if !setup.FromNone && setup.Size%3 == 0 {
+			gateRange = log.LevelRange{MinLevel: log.TraceLevel, MaxLevel: log.MaxLevel} // admits every event these histories submit, not NONE
+		}
+		refs := []*log.AppenderRef{{Appender: g, Level: gateRange}}
 		if setup.Second {
 			s2 := &RecAppender{AppenderBase: log.AppenderBase{Name: "second"}}
 			_ = s2.Start()
@@ -151,9 +163,19 @@ func RunAsyncHistory(setup AsyncSetup, tagName, handleName string, actions []Asy
 		s3 := &RecAppender{AppenderBase: log.AppenderBase{Name: "restricted"}}
 		_ = s3.Start()
 		refs = append(refs, &log.AppenderRef{Appender: s3, Level: log.LevelRange{MinLevel: log.ErrorLevel, MaxLevel: log.MaxLevel}})
+		switch setup.RefsOrder % 3 { // a logger built from exported fields lists its references in any order
+		case 1:
+			refs[0], refs[len(refs)-1] = refs[len(refs)-1], refs[0]
+		case 2:
+			refs = append(refs[1:], refs[0])
+		}
+		loggerRange := log.LevelRange{MinLevel: log.InfoLevel, MaxLevel: log.MaxLevel}
+		if setup.FromNone {
+			loggerRange = allLevels
+		}
 		pol := map[string]log.BufferFullPolicy{"Block": log.BufferFullPolicyBlock, "Discard": log.BufferFullPolicyDiscard, "DiscardOldest": log.BufferFullPolicyDiscardOldest}[setup.Policy]
 		direct = &log.AsyncLogger{
-			LoggerBase:       log.LoggerBase{Name: "direct", Level: log.LevelRange{MinLevel: log.InfoLevel, MaxLevel: log.MaxLevel}},
+			LoggerBase:       log.LoggerBase{Name: "direct", Level: loggerRange},
 			AppenderRefs:     log.AppenderRefs{AppenderRefs: refs},
 			BufferSize:       setup.Size,
 			BufferFullPolicy: pol,
@@ -187,11 +209,20 @@ func RunAsyncHistory(setup AsyncSetup, tagName, handleName string, actions []Asy
 				return res
 			}
 		}
+		submitAt = func(id int64, lv log.Level) {
+			e := log.GetEvent()
+			e.Level, e.Time, e.Tag = lv, time.Unix(0, 0), tagName
+			e.Fields = []log.Field{log.Int("id", id)}
+			direct.Append(e)
+		}
 		submitEvent = func(id int64, enabled bool) {
 			e := log.GetEvent()
 			e.Level = log.InfoLevel
 			if !enabled {
 				e.Level = log.DebugLevel
+				if setup.FromNone {
+					e.Level = levelNeg
+				}
 			}
 			e.Time = time.Unix(0, 0)
 			e.Tag = tagName
@@ -247,6 +278,10 @@ func RunAsyncHistory(setup AsyncSetup, tagName, handleName string, actions []Asy
 				submitEvent(id, false)
 			case "evl":
 				submitLate(id)
+			case "evP":
+				submitAt(id, log.PanicLevel)
+			case "ev0":
+				submitAt(id, log.NoneLevel)
 			case "raw0":
 				submitEmpty(id)
 			case "rawL":
@@ -255,7 +290,8 @@ func RunAsyncHistory(setup AsyncSetup, tagName, handleName string, actions []Asy
 				submitRaw(id)
 			}
 		}
-		if kind == "dis" {
+		if kind == "dis" || (kind == "ev0" && !(setup.FromNone && !setup.ViaRefresh)) {
+			// below the logger's range: neither delivered nor counted
 			if !call(do) && res.Hang == "" {
 				res.Hang = "a log call below the logger's level did not return"
 			}
@@ -267,6 +303,9 @@ func RunAsyncHistory(setup AsyncSetup, tagName, handleName string, actions []Asy
 		}
 		if kind == "raw0" {
 			res.EmptyIDs[id] = true
+		}
+		if kind == "evP" {
+			res.HighIDs[id] = true
 		}
 		switch {
 		case !inflight && len(q) == 0:
